@@ -371,10 +371,65 @@ theorem dropWhile_none {α : Type} (p : α → Bool) : ∀ (l : List α), (∀ x
   | cons x l _ => intro h; simp [List.dropWhile, h x List.mem_cons_self]
 
 open Shk.Story in
-theorem cleanPart_id (a : List Char) (hs : ∀ x ∈ a, isSpace x = false) (hu : '_' ∉ a) : cleanPart a = a := by
-  simp only [cleanPart, trim]
-  rw [dropWhile_none _ a hs, dropWhile_none _ a.reverse (fun x hx => hs x (List.mem_reverse.mp hx)),
-    List.reverse_reverse]
+theorem spaceLen_plain (c : Char) (rest : List Char) (h : isPlain c = true) : spaceLen (c :: rest) = 0 := by
+  simp only [isPlain, Bool.and_eq_true, Bool.not_eq_true', decide_eq_true_eq] at h
+  obtain ⟨h1, h2⟩ := h
+  unfold spaceLen
+  simp only [h1, Bool.false_eq_true, if_false]
+  split <;> first | rfl | (exfalso; omega)
+
+open Shk.Story in
+theorem spaceLenR_plain (c : Char) (rest : List Char) (h : isPlain c = true) : spaceLenR (c :: rest) = 0 := by
+  simp only [isPlain, Bool.and_eq_true, Bool.not_eq_true', decide_eq_true_eq] at h
+  obtain ⟨h1, h2⟩ := h
+  unfold spaceLenR
+  simp only [h1, Bool.false_eq_true, if_false]
+  cases rest with
+  | nil => rfl
+  | cons d more =>
+    have hc1 : (c.toNat == 0x85) = false := by simp; omega
+    have hc2 : (c.toNat == 0xA0) = false := by simp; omega
+    simp only [hc1, hc2, Bool.or_self, Bool.and_false, Bool.false_eq_true, if_false]
+    cases more with
+    | nil => rfl
+    | cons e _ =>
+      simp only
+      have : spaceLen [e, d, c] ≠ 3 := by
+        unfold spaceLen
+        split
+        · decide
+        · split <;> (try split) <;> (try split) <;> simp_all <;> omega
+      simp [this]
+
+open Shk.Story in
+theorem dropSpaces_fix (len : List Char → Nat) (f : Nat) (l : List Char) (h : len l = 0) : dropSpaces len f l = l := by
+  cases f with
+  | zero => rfl
+  | succ f => simp [dropSpaces, h]
+
+open Shk.Story in
+theorem trim_plain (a : List Char) (hs : ∀ x ∈ a, isPlain x = true) : trim a = a := by
+  unfold trim
+  have h1 : dropSpaces spaceLen a.length a = a := by
+    apply dropSpaces_fix
+    cases a with
+    | nil => rfl
+    | cons c r => exact spaceLen_plain c r (hs c (by simp))
+  rw [h1]
+  have h2 : dropSpaces spaceLenR a.length a.reverse = a.reverse := by
+    apply dropSpaces_fix
+    cases hr : a.reverse with
+    | nil => rfl
+    | cons c r =>
+      apply spaceLenR_plain c r
+      apply hs c
+      have : c ∈ a.reverse := by rw [hr]; simp
+      exact List.mem_reverse.mp this
+  rw [h2, List.reverse_reverse]
+
+open Shk.Story in
+theorem cleanPart_id (a : List Char) (hs : ∀ x ∈ a, isPlain x = true) (hu : '_' ∉ a) : cleanPart a = a := by
+  simp only [cleanPart, trim_plain a hs]
   apply List.filter_eq_self.mpr
   intro x hx
   simp only [ne_eq, decide_eq_true_eq]
@@ -391,7 +446,7 @@ theorem defd_tblOf (c : Cfg) : Shk.Story.defd (tblOf c) = sceneDefined c := by
 /-- what `validateStoryLine` and `combineStoryLines` guarantee for `cfg.storyLine` -/
 def StoryOk (c : Cfg) : Prop :=
   Shk.Story.ValidStory (tblOf c) c.story ∧
-  ∀ a ∈ c.story, a ≠ [] ∧ ∀ x ∈ a, Shk.Story.isSpace x = false
+  ∀ a ∈ c.story, a ≠ [] ∧ ∀ x ∈ a, Shk.Story.isPlain x = true
 
 open Shk.Story in
 theorem validate_joinSp (c : Cfg) (hok : StoryOk c) (hne : c.story ≠ []) :
@@ -401,7 +456,7 @@ theorem validate_joinSp (c : Cfg) (hok : StoryOk c) (hne : c.story ≠ []) :
   have hsp : ∀ a ∈ c.story, ' ' ∉ a := by
     intro a ha h
     have := (hs a ha).2 ' ' h
-    simp [isSpace] at this
+    revert this; decide
   refine ⟨?_, ?_⟩
   · rw [writtenActs_eq, splitSp_joinSp c.story hne hsp]
     have h1 : c.story.map cleanPart = c.story := by
